@@ -188,6 +188,18 @@ func (s *Server) Close() {
 func (s *server) CreateTable(ctx context.Context, req *btapb.CreateTableRequest) (*btapb.Table, error) {
 	tbl := req.Parent + "/tables/" + req.TableId
 
+	// The table name becomes a path below the storage root of the on-disk engine; a name that the file system
+	// cannot hold would make the storage layer panic.
+	const maxNameLen, maxSegmentLen = 2048, 200
+	if len(tbl) > maxNameLen {
+		return nil, status.Errorf(codes.InvalidArgument, "table name too long (%d bytes)", len(tbl))
+	}
+	for _, seg := range strings.Split(tbl, "/") {
+		if len(seg) > maxSegmentLen {
+			return nil, status.Errorf(codes.InvalidArgument, "table name component too long (%d bytes)", len(seg))
+		}
+	}
+
 	s.mu.Lock()
 	if _, ok := s.tables[tbl]; ok {
 		s.mu.Unlock()
